@@ -1,8 +1,11 @@
 /-
   C33 — witnesses: the full statement `ProducersSpec` is false of the code (and of its model) in
-  every clause; each witness is replayed on the real compiler by the check (`o.c33`, corpus/C33).
-  Finding classes (decidable predicates on the model's inputs) and non-vacuity examples for the
-  hypotheses of the `_partial` theorems.
+  its `verify_overwritable` and `Assignment::new` clauses; each witness is replayed on the real
+  compiler by the check (`o.c33`, corpus/C33/known.case). The lexer clause was false too
+  (classes D_lexer_char_span, D_eof_span) until /repo 45c5794 and 694e815: the former witnesses
+  are now `fixed_…` theorems stating the repaired behaviour on the same inputs (replayed from
+  corpus/C33/fixed.case). Finding classes (decidable predicates on the model's inputs) and
+  non-vacuity examples for the hypotheses of the `_partial` theorems.
 -/
 import VrlProofs.Props.C33
 
@@ -29,16 +32,6 @@ def D_nonascii_before_expr (src : List Nat) (expr : Span) : Bool :=
   match src[expr.start - 1]? with
   | some b => decide (128 ≤ b)
   | none => true
-
-/-- D_lexer_char_span: an `EscapeChar { start, ch }` error whose offending character is
-    multi-byte; its label `(start, start + 1)` ends inside that character. -/
-def D_lexer_char_span (e : LexErr) : Bool := e.splitsChar
-
-/-- D_eof_span: the nested lexer of `query_start` reports `StringLiteral { start: 0 }` shifted by
-    `pos + 1`, i.e. one past the opening quote: at the end of input that is `(len, len + 1)`. -/
-def D_eof_span (src : List Nat) : LexErr → Bool
-  | .stringLiteral s => decide (src.length ≤ s)
-  | _ => false
 
 /-! ## verify_overwritable -/
 
@@ -94,44 +87,47 @@ theorem not_assignmentSpec : ¬ AssignmentSpec := by
   have := h srcAssign ⟨0, 1⟩ ⟨5, 6⟩ ⟨0, 4⟩ (by decide) (by decide) (by decide) (by decide) (by decide)
   exact absurd this (by decide)
 
-/-! ## lexer -/
+/-! ## lexer (repaired: no finding class left in the modelled scanners) -/
 
 /-- `"\们` : an invalid escape whose character is 3 bytes long -/
 def srcEsc : List Nat := [34, 92, 228, 187, 172]
 
-/-- D_lexer_char_span (E209 split_char): label `(2, 3)` ends inside `们`.
-    (real compiler: `"www.\们` → label `6-7`) -/
-theorem witness_lexer_char_span :
+/-- fixed by /repo 45c5794 (was D_lexer_char_span, E209 split_char, label `(2, 3)` ending inside
+    `们`): the label is now `(2, 2 + len_utf8('们')) = (2, 5)`, well-formed. -/
+theorem fixed_lexer_char_span :
     lexFirst srcEsc = some (.error (.escapeChar 2 (some 20204))) ∧
-    D_lexer_char_span (.escapeChar 2 (some 20204)) = true ∧
-    ¬ WF srcEsc (LexErr.escapeChar 2 (some 20204)).label ∧
-    clause srcEsc (LexErr.escapeChar 2 (some 20204)).label = some "split_char" := by
+    (LexErr.escapeChar 2 (some 20204)).label = ⟨2, 5⟩ ∧
+    WF srcEsc (LexErr.escapeChar 2 (some 20204)).label ∧
+    clause srcEsc (LexErr.escapeChar 2 (some 20204)).label = none := by
   decide
 
 /-- `[ "` : a string opened inside a delimited region of a query, at the end of input -/
 def srcEof : List Nat := [91, 32, 34]
 
-/-- D_eof_span (E207 past_end): the nested lexer's `StringLiteral { start: 0 }` shifted by
-    `pos + 1 = 3` gives the label `(3, 4)` in a 3-byte source. (real compiler: label `3-4`) -/
-theorem witness_eof_span :
-    lexFirst srcEof = some (.error (.stringLiteral 3)) ∧ D_eof_span srcEof (.stringLiteral 3) = true ∧
-    ¬ WF srcEof (LexErr.stringLiteral 3).label ∧
-    clause srcEof (LexErr.stringLiteral 3).label = some "past_end" := by
+/-- fixed by /repo 694e815 (was D_eof_span, E207 past_end, label `(3, 4)` in a 3-byte source):
+    the nested lexer's "unterminated string" is reported at the opening quote, `(2, 3)`. -/
+theorem fixed_eof_span :
+    lexFirst srcEof = some (.error (.stringLiteral 2)) ∧
+    WF srcEof (LexErr.stringLiteral 2).label ∧
+    clause srcEof (LexErr.stringLiteral 2).label = none := by
   decide
 
 /-- `[ "é` : same producer, the byte after the quote starts a 2-byte character -/
 def srcNested : List Nat := [91, 32, 34, 195, 169]
 
-/-- E207 split_char: label `(3, 4)` ends inside `é`. -/
-theorem witness_nested_split_char :
-    lexFirst srcNested = some (.error (.stringLiteral 3)) ∧
-    clause srcNested (LexErr.stringLiteral 3).label = some "split_char" := by
+/-- fixed by /repo 694e815 (was E207 split_char, label `(3, 4)` ending inside `é`): `(2, 3)`. -/
+theorem fixed_nested_split_char :
+    lexFirst srcNested = some (.error (.stringLiteral 2)) ∧
+    WF srcNested (LexErr.stringLiteral 2).label ∧
+    clause srcNested (LexErr.stringLiteral 2).label = none := by
   decide
 
-theorem not_lexSpec : ¬ LexSpec := by
-  intro h
-  have := h srcEof (.stringLiteral 3) (by decide)
-  exact absurd this (by decide)
+/-- `[ "\们` : both repairs at once — a multi-byte invalid escape found by the nested lexer is
+    shifted by `pos + 1` and covers the whole character: `(4, 7)`. -/
+theorem fixed_nested_escape :
+    lexFirst [91, 32, 34, 92, 228, 187, 172] = some (.error (.escapeChar 4 (some 20204))) ∧
+    WF [91, 32, 34, 92, 228, 187, 172] (LexErr.escapeChar 4 (some 20204)).label := by
+  decide
 
 theorem not_producersSpec : ¬ ProducersSpec := fun h => not_overwritableSpec h.1
 
@@ -165,19 +161,25 @@ example : (∀ b ∈ [34, 97, 92, 113], b < 128) ∧
     WF [34, 97, 92, 113] (LexErr.escapeChar 3 (some 113)).label := by
   decide
 
-/-- `"é\q` : a non-ASCII source whose error is outside D_lexer_char_span: label `(4, 5)` is WF -/
+/-- `"é\q` : a non-ASCII UTF-8 source with a lexer error (hypotheses of `lex_string_wf_utf8`) -/
 example : wfUtf8 [34, 195, 169, 92, 113] = true ∧
     lexStringAt0 [34, 195, 169, 92, 113] = .error (.escapeChar 4 (some 113)) ∧
-    (LexErr.escapeChar 4 (some 113)).splitsChar = false ∧
     WF [34, 195, 169, 92, 113] (LexErr.escapeChar 4 (some 113)).label := by
   decide
 
 /-- `[ "\q` : the nested lexer reports an ASCII escape error: label `(4, 5)` is WF
-    (hypotheses of `lex_nested_wf_partial`) -/
+    (hypotheses of `lex_nested_wf`) -/
 example : lexFirst [91, 32, 34, 92, 113] = some (.error (.escapeChar 4 (some 113))) ∧
+    ([91, 32, 34, 92, 113] : List Nat)[2]? = some 34 ∧
     wfUtf8 (([91, 32, 34, 92, 113] : List Nat).drop 3) = true ∧
-    (LexErr.escapeChar 4 (some 113)).splitsChar = false ∧
     WF [91, 32, 34, 92, 113] (LexErr.escapeChar 4 (some 113)).label := by
+  decide
+
+/-- `wfUtf8` accepts real UTF-8 (1- to 4-byte characters) and rejects overlong / truncated /
+    stray-continuation input -/
+example : wfUtf8 [97, 195, 169, 228, 187, 172, 240, 159, 152, 128] = true ∧
+    wfUtf8 [192, 128] = false ∧ wfUtf8 [224, 128, 128] = false ∧ wfUtf8 [195] = false ∧
+    wfUtf8 [169] = false := by
   decide
 
 /-- `s'ab` : unterminated raw string -/
